@@ -117,3 +117,14 @@ PROPS["C13"] = dict(level="exploration",
                 quick=(30, 600000), thorough=(480, 30000000))],
     assumptions=["sequential event mode: one thread, the driver chooses the order of deferred completions, trigger firing and stop requests (callback granularity); the atomics inside take_until / stop_immediately / type_erased_stream are exercised only along those orders",
                  "the exact-sequence oracle applies when neither a stop request nor a firing take_until trigger can cut the sequence; otherwise prefix + fold-consistency + source-side invariants"])
+
+PROPS["C18"] = dict(level="exploration",
+    units=[Unit("c18_erasure", "harness/c18_erasure.cpp", cfg="p17", max_size=90, quick=(20, 600000), thorough=(300, 30000000)),
+           # "expression with wrapper == expression without": the expression / stream units restricted to the shapes that contain a
+           # type-erasing wrapper; the reference models treat the wrapper as the identity, so every oracle bears on C18 there (retag)
+           Unit("exprfuzz", "harness/exprfuzz.cpp", cfg="p17", extra_src=["exprfuzz/pinned.cpp"] + _EF_QUICK, max_size=90,
+                args={"require-kind": "any_sender_of", "retag": "1"}, quick=(25, 600000), thorough=(300, 30000000)),
+           Unit("c13_streams", "harness/c13_streams.cpp", cfg="p17", max_size=90,
+                args={"require-stage": "type_erase", "retag": "1"}, quick=(15, 600000), thorough=(240, 30000000))],
+    assumptions=_EF_ASSUME + ["sequential, single-threaded: wrapper operations are not raced against each other",
+                              "any_sender_of / type_erased_stream inside larger expressions are compared against reference models in which the wrapper is the identity"])
